@@ -82,6 +82,9 @@ Init == \E c \in Cfgs : LET s == InitState(c) IN
     /\ xlog = <<>>
 
 Idle == ~proc.alive
+\* cfg.mark = "started": runTarget.Evaluate records "being run" before the body (the repaired
+\* design); absent / "none": the record is only written after the body, as the code was found
+Marked == "mark" \in DOMAIN cfg /\ cfg.mark = "started"
 
 --------------------------------------------------------------------------
 \* user actions between processes
@@ -101,6 +104,24 @@ EditSrc(s) ==
        /\ mon' = Feed(mon, << [ev |-> "Edit", kind |-> "src", s |-> s, v |-> v] >>)
     /\ used' = [used EXCEPT !.edits = @ + 1]
     /\ hist' = Append(hist, [op |-> "edit_src", s |-> s]) /\ xlog' = xlog
+    /\ UNCHANGED <<cfg, shape, env, rec, temps, proc, bd>>
+
+\* the last edit of a target's environment / of a source is undone (the value it had before)
+RevertEnv(t) ==
+    /\ Idle /\ used.edits < MaxEdits /\ t \in T /\ env[t] > 1
+    /\ env' = [env EXCEPT ![t] = @ - 1]
+    /\ used' = [used EXCEPT !.edits = @ + 1]
+    /\ mon' = Feed(mon, << [ev |-> "Edit", kind |-> "env", t |-> t, v |-> EnvTok(env[t] - 1)] >>)
+    /\ hist' = Append(hist, [op |-> "revert_env", t |-> t]) /\ xlog' = xlog
+    /\ UNCHANGED <<cfg, shape, content, rec, temps, proc, bd>>
+
+RevertSrc(s) ==
+    /\ Idle /\ used.edits < MaxEdits /\ s \in S /\ ~IsGenerated(s) /\ content[s] \in {"v2", "v3"}
+    /\ LET v == IF content[s] = "v3" THEN "v2" ELSE "v1" IN
+       /\ content' = [content EXCEPT ![s] = v]
+       /\ mon' = Feed(mon, << [ev |-> "Edit", kind |-> "src", s |-> s, v |-> v] >>)
+    /\ used' = [used EXCEPT !.edits = @ + 1]
+    /\ hist' = Append(hist, [op |-> "revert_src", s |-> s]) /\ xlog' = xlog
     /\ UNCHANGED <<cfg, shape, env, rec, temps, proc, bd>>
 
 \* delete a generated file (a declared output disappears)
@@ -189,7 +210,7 @@ Decide(n) ==
                                    !.data = Put2(@, n, info.data), !.ver = Put2(@, n, info.ver)]
                /\ mon' = Feed(mon, << [ev |-> "Evaluating", l |-> n], [ev |-> "Succeeded", l |-> n] >>)
                /\ UNCHANGED <<rec, temps, content>>
-          ELSE /\ bd' = [bd EXCEPT !.cur = n, !.pc = "body", !.dd = depData]
+          ELSE /\ bd' = [bd EXCEPT !.cur = n, !.pc = IF Marked THEN "mark1" ELSE "body", !.dd = depData]
                /\ mon' = Feed(mon, << [ev |-> "Evaluating", l |-> n] >>)
                /\ UNCHANGED <<rec, temps, content>>
     /\ UNCHANGED <<cfg, shape, env, proc, used, hist, xlog>>
@@ -216,6 +237,20 @@ Body(n, ok) ==
     /\ bd' = [bd EXCEPT !.pc = IF ok THEN "save1" ELSE "fsave1", !.ok = ok]
     /\ used' = [used EXCEPT !.fails = IF ok THEN @ ELSE @ + 1]
     /\ UNCHANGED <<cfg, shape, env, rec, temps, proc, hist, xlog>>
+
+\* (cfg.mark = "started") before the body runs, the record is replaced by "being run": no stamp,
+\* must re-run.  A process that dies from here on leaves that behind, not the last success.
+MarkTmp ==
+    /\ bd.active /\ bd.cur # "" /\ bd.pc = "mark1"
+    /\ temps' = temps + 1
+    /\ bd' = [bd EXCEPT !.pc = "mark2"]
+    /\ UNCHANGED <<cfg, shape, env, content, rec, proc, used, mon, hist, xlog>>
+MarkRename ==
+    /\ bd.active /\ bd.cur # "" /\ bd.pc = "mark2"
+    /\ rec' = [rec EXCEPT ![bd.cur] = [deps |-> bd.dd, data |-> "", rerun |-> TRUE, ver |-> proc.info[bd.cur].ver]]
+    /\ temps' = temps - 1
+    /\ bd' = [bd EXCEPT !.pc = "body"]
+    /\ UNCHANGED <<cfg, shape, env, content, proc, used, mon, hist, xlog>>
 
 \* saveTargetInfo: temp file written ...
 SaveTmp ==
@@ -267,13 +302,13 @@ Crash ==
     /\ UNCHANGED <<cfg, shape, env, content, rec, temps>>
 
 Next ==
-    \/ \E t \in T : EditEnv(t)
-    \/ \E s \in S : EditSrc(s) \/ DeleteGen(s)
+    \/ \E t \in T : EditEnv(t) \/ RevertEnv(t)
+    \/ \E s \in S : EditSrc(s) \/ DeleteGen(s) \/ RevertSrc(s)
     \/ NonEdit \/ Reshape
     \/ \E r \in T, m \in {"real", "dry", "always"}, g \in BOOLEAN : Load(m, r, g)
     \/ \E n \in Nodes : Decide(n)
     \/ \E n \in Nodes, ok \in BOOLEAN : Body(n, ok)
-    \/ SaveTmp \/ SaveRename \/ BuildEnd \/ Crash
+    \/ MarkTmp \/ MarkRename \/ SaveTmp \/ SaveRename \/ BuildEnd \/ Crash
 
 Spec == Init /\ [][Next]_vars
 
